@@ -828,6 +828,22 @@ def i6_i7_writer(ck):
                         ck.fail("I6.writer_line", "best_line mutated", w.where(t["line"]), "best_line is mutated through %s" % callee_name(t))
     ck.floor("I6", nsrc, 2, "assignments of best_line in the writer (empty, BestMove line)")
     args = _display_args(tb, w.term(pb))
+    # alternative form: the one printed field is the coordinate text of the move, `into_notation::<_, Lan>(best_line.first())` - the writer
+    # the book reply uses (its fields and lower-casing are C12's Q6)
+    if len(args) == 1:
+        lan_calls = [t2 for b2, t2 in live_calls(w) if callee_name(t2) == INTO_NOTATION and any("Lan" in g for g in t2.get("generics", []))]
+        a0 = args[0]
+        via_lan = bool(lan_calls) and any(x[0] == "call" and x[1] == INTO_NOTATION for x in walk(a0)) and \
+            any(x[0] == "call" and x[1].endswith("::first") for x in walk(a0)) and any(x[0] == "var" and x[1] == bl for x in walk(a0))
+        if not via_lan and a0[0] == "var":
+            # the text sits in a temporary: follow its definition
+            for d in tb.d.defs.get(a0[1], []):
+                dt = tb.call_term(d[2]) if d[0] == "call" else tb.rvalue(d[3])
+                via_lan = via_lan or (bool(lan_calls) and any(x[0] == "call" and x[1] == INTO_NOTATION for x in walk(dt)) and
+                                      any(x[0] == "call" and x[1].endswith("::first") for x in walk(dt)) and any(x[0] == "var" and x[1] == bl for x in walk(dt)))
+        ck.req(via_lan, "I7.writer_fields", "count", w.where(pline),
+               "the writer's bestmove has one printed field and it is not into_notation::<_, Lan>(best_line.first()): %s" % show(a0)[:100])
+        return
     ck.req(len(args) == 3, "I7.writer_fields", "count", w.where(pline), "the writer's bestmove has %d printed fields, expected origin, destination, promotion" % len(args))
     if len(args) == 3:
         def is_acc(t, acc):
